@@ -488,6 +488,8 @@ def plan(ctx: Ctx, n: int) -> List[dict]:
         if f["system"] not in (None, "triclinic") and i % 3 == 0: f["redundant"] = "noisy"
         if i % 4 == 1: f["static_mesh"] = "shifted"
         if i % 6 == 3: f["static_mesh"] = ["fewer", "more"][(i // 6) % 2]      # elast.dat with its own N
+        if i % 7 == 4: f["qha_order"] = [4, 5][(i // 7) % 2]                   # qha EOS order other than 3 (schema: 2..5): the static pressure stays cubic
+        if f["system"] in ("monoclinic", "triclinic", "trigonal7", "trigonal6", "tetragonal7") and i % 2 == 1: f["small_component"] = True
         # every fifth: the rows of the static table (and of its lattice block) are not listed by decreasing volume
         if i % 5 == 2: f["static_rows"] = ["shuffled", "increasing"][(i // 5) % 2]
         # SHORT tables (the tie: the cubic of `fit_modulus` and the centred ratios of `get_axial_strains` are the same code for every
